@@ -147,3 +147,16 @@ fn ord_accessors() {
     assert_eq!(a.actoridx(), crate::op_set2::ActorIdx(a.1));
     kani::cover!(a.0 == u32::MAX);
 }
+
+/// Over-approximating stub for `ActorId::from(&[u8])` (a TinyVec copy whose symbolic length makes
+/// CBMC unroll every copy path): same length, arbitrary content. Every behaviour of the real copy
+/// is included. Only for inputs of <= 16 bytes (inline storage), which the harnesses guarantee.
+#[allow(dead_code)]
+pub(crate) fn stub_actor_from_slice<'a>(b: &'a [u8]) -> ActorId
+where
+    'a: 'a, // early-bound, to match the generic count of the impl method being stubbed
+{
+    assert!(b.len() <= 16);
+    let content: [u8; 16] = kani::any();
+    ActorId(TinyVec::Inline(tinyvec::ArrayVec::from_array_len(content, b.len())))
+}
